@@ -16,6 +16,7 @@ From RU Require Import Model.Host Proofs.C09_Host Proofs.C16_RT6Model.
 From RU Require Import Model.FormUrlencoded Model.QueryPairs Proofs.C02_Form Proofs.C02_SetCred Proofs.C02_SetCredCanon Proofs.C02_QPort Proofs.C02_Reach3.
 From RU Require Proofs.C15_Ser.
 From RU Require Import Proofs.C02_SetHostFrame Proofs.C02_SetHostCanon Proofs.C02_SetScheme Proofs.C02_PathSetter Proofs.C02_SetPath Proofs.C02_Reach4.
+From RU Require Import Proofs.C02_Stmt4.
 Open Scope string_scope.
 Open Scope N_scope.
 Open Scope list_scope.
@@ -1013,6 +1014,47 @@ Print Assumptions C02_statement_refuted.
 Theorem C02_statement3_refuted : ~ C02_statement3.
 Proof. exact statement3_refuted. Qed.
 Print Assumptions C02_statement3_refuted.
+
+(* ---------- M. the statement corrected: C02_statement4 over Reachable4 (known_step3 = known_step2 + Known_F_C02_10) ---------- *)
+(* M.0  Known_F_C02_10 = the class F-C07-8 seen from C02 (computable; mirror of known_f_c07_8 in harness/src/bin/c02/main.rs):
+   url::quirks::set_host on a URL whose scheme is not special, whose user name is empty and which has a password.
+   Reachable4 = Reachable3 with every step outside known_step3; C02_statement4 also carries host_nonempty, the
+   hypothesis the host-setter theorems need (proved of the host model).  NOT proved in full. *)
+Definition C02_full_statement4 : Prop := C02_statement4.
+
+Theorem C02_F_C02_10_witness :
+  Known_F_C02_10 w10_u0 w10_op = true
+  /\ known_step2 true mhp host_parse_opaque host_display w10_u0 w10_op = false
+  /\ known_step3 true mhp host_parse_opaque host_display w10_u0 w10_op = true
+  /\ apply_op true mhp host_parse_opaque host_display w10_u0 w10_op = Some w10_u1
+  /\ list_eqb (ser w10_u1) (B "a://:pw@/p") = true
+  /\ match reparse true mhp host_parse_opaque host_display w10_u1 with PErr EmptyHost => true | _ => false end = true.
+Proof. exact F_C02_10_witness. Qed.
+Print Assumptions C02_F_C02_10_witness.
+
+(* the new quantifier restricts the previous one, so nothing that was meant is lost ... *)
+Theorem C02_Reachable4_restricts : forall dbg hp hpo hd u, Reachable4 dbg hp hpo hd u -> Reachable3 dbg hp hpo hd u.
+Proof. exact Reachable4_3. Qed.
+Print Assumptions C02_Reachable4_restricts.
+
+Theorem C02_statement3_implies_statement4 : C02_statement3 -> C02_statement4.
+Proof. exact statement3_implies_4. Qed.
+Print Assumptions C02_statement3_implies_statement4.
+
+(* ... and the histories of C02_reach_partial3 are inside it *)
+Theorem C02_reach_partial3_in_statement4 : forall dbg hp hpo hd, HostOK2 hp hpo hd -> host_nonempty hp hpo -> forall u,
+  ReachC3 dbg hp hpo hd u -> Reachable4 dbg hp hpo hd u.
+Proof. exact ReachC3_Reachable4. Qed.
+Print Assumptions C02_reach_partial3_in_statement4.
+
+Example C02_F_C02_10_class :
+  match mparse (B "a://u:pw@h/p") with POk u => Known_F_C02_10 u (OQHost []) | _ => true end = false
+  /\ match mparse (B "http://:pw@h/p") with POk u => Known_F_C02_10 u (OQHost []) | _ => true end = false
+  /\ match mparse (B "a://h/p") with POk u => Known_F_C02_10 u (OQHost []) | _ => true end = false
+  /\ match mparse (B "a:/p") with POk u => Known_F_C02_10 u (OQHost []) | _ => true end = false
+  /\ match mparse (B "a://:pw@h/p") with POk u => Known_F_C02_10 u (OQHostname []) | _ => true end = false
+  /\ match mparse (B "a://:pw@h/p") with POk u => Known_F_C02_10 u (OQHost (B "x")) | _ => false end = true.
+Proof. exact F_C02_10_class. Qed.
 
 (* ---------- F. every excluded class contains a history that is not a fixpoint ---------- *)
 Theorem C02_F_C03_5_refuted :
